@@ -307,6 +307,26 @@ def dict_part(ctx, cfg):
         + parents
         + [EQ(left[p], vals[p]) for p in exp if p in left]),
         sig='delete', info=lambda: dict(after=repr(d), **info()))
+    # ---- update_in hands the function what is stored at the path, also
+    # when that is falsy
+    for w in ([vals[q]] if q in vals else []) + [FALSY[ctx.choice(
+            'falsy_u', len(FALSY))]]:
+        du = copy.deepcopy(d0)
+        assoc_path(du, q, w)
+        seen = []
+        try:
+            uu = update_in(du, q, lambda cur: (seen.append(cur), 'new')[1])
+            ok_u = len(seen) == 1 and (
+                EQ(seen[0], w) if is_sym(w) else (
+                    type(seen[0]) is type(w) and seen[0] == w)) \
+                and get_in(uu, q, 'dflt') == 'new'
+        except PathControl:
+            raise
+        except Exception as err:
+            ctx.check_poison()
+            ok_u = False
+        ctx.claim('C17.update_in', ok_u, sig='update_in-argument',
+                  info=lambda: dict(path=q, stored=repr(w), seen=repr(seen)))
     # ---- update_in: only the addressed subtree differs
     d = copy.deepcopy(d0)
     u = update_in(d, q, lambda cur: v)
